@@ -313,9 +313,20 @@ def _loop_scenarios() -> list[Scenario]:
 
         def check(self, env: Env) -> list[Violation]:
             conflicts = [r for r in env.world.requests if r.status == 422]
-            if not conflicts:
-                return []
             out = []
+            fin = self.params.get('user_fin')
+            if fin:
+                # a user transformation (patch.fns): whatever the conflicts, it takes effect exactly once
+                adds = [w['t'] for w in env.world.writes if w['actor'].startswith('op:') and w['pre'] is not None and w['post'] is not None
+                        and fin not in (w['pre']['metadata'].get('finalizers') or []) and fin in (w['post']['metadata'].get('finalizers') or [])]
+                asked = sum(1 for _, k, p in env.obs if k == 'call' and p['id'] == 'c1' and p['outcome'].startswith('ok'))
+                if len(adds) > asked:
+                    out.append(self.viol(env, 'transformation-duplicated', f"the handler asked {asked} time(s) for finalizer {fin!r} to be added; the operator "
+                                                                           f"added it at {adds} ({len(conflicts)} version conflict(s) on the way)", clause='exactly-once'))
+                if asked and not adds and not env.owes() and env.end_reason == 'horizon' and not self.carveouts(env):
+                    out.append(self.viol(env, 'transformation-lost', f"the handler asked for finalizer {fin!r}; it was never added", clause='exactly-once'))
+            if not conflicts:
+                return out
             for v in super().check(env):
                 if v.kind in ('released-early', 'unblocked-while-required', 'blocked-needlessly', 'blocked-while-deleting', 'foreign-finalizers-changed'):
                     out.append(self.viol(env, 'carried-transformation-not-reevaluated',
@@ -332,6 +343,12 @@ def _loop_scenarios() -> list[Scenario]:
         out.append(CarryOverScenario(handlers=handlers, settings=st, horizon=50.0, variant='toggle-live',
                                      user=[(1.0, 'create', 'a'), (2.0, 'label', 'a', 'on', 'yes'), (5.0, 'label', 'a', 'on', 'no'),
                                            (8.0, 'label', 'a', 'on', 'yes'), (12.0, 'status', 'a', 1)]))
+    # a user transformation that meets a version conflict, is delivered in the next cycle, and whose effect somebody undoes later
+    for lc in ('asap',):
+        handlers = [dict(id='c1', on='create', script=['ok+finuser/fin']), dict(id='u1', on='update', script=['ok'])]
+        out.append(CarryOverScenario(handlers=handlers, settings=st, horizon=40.0, variant='user-fn', user_fin='user/fin', lifecycle=lc,
+                                     user=[(1.0, 'create', 'a'), (5.0, 'status', 'a', 1), (10.0, 'delfin', 'a', 'user/fin'), (14.0, 'status', 'a', 2),
+                                           (16.0, 'spec', 'a', 2)]))
     return out
 
 
